@@ -23,15 +23,28 @@
    (minimum_nprobes < maximum_nprobes), range queries (lower/upper bound), multivector columns, PQ/SQ/HNSW
    sub-indices (only their contract `da` = the distance the sub-index reports).
 
-   A distance is a `key`: an exact number, NaN (sorts after every number: f32::total_cmp / Arrow sort) or
-   NULL (null vector, or a deleted row of a make_deletions_null scan; sorts last and is dropped by
-   `_distance IS NOT NULL`). *)
+   A distance is a `key`: an exact number, NaN, or NULL (null vector, or a deleted row of a
+   make_deletions_null scan; sorts last and is dropped by `_distance IS NOT NULL`).
+   NaN is the value the cosine kernel produces for a zero vector, 1 - 0/0: on x86-64 the default NaN has
+   its SIGN BIT SET, and both comparisons involved (f32::total_cmp in OrderedFloat, the row-format
+   comparison of DataFusion's SortExec/TopK) order a negative NaN BELOW every number.  key_leb is that
+   implementation order (tied to the code by the `search` stream on the cosine `axis` tables);
+   spec_leb is the order the property means: an undefined distance is never nearer than a defined one. *)
 From LanceV Require Import Common.Base.
 Local Open Scope N_scope.
 
 Inductive key : Type := KNum (z : Z) | KNaN | KNull.
 
 Definition key_leb (a b : key) : bool :=
+  match a, b with
+  | KNaN, _ => true
+  | KNum _, KNaN => false
+  | KNum x, KNum y => (x <=? y)%Z
+  | KNum _, KNull => true
+  | KNull, KNull => true
+  | KNull, _ => false
+  end.
+Definition spec_leb (a b : key) : bool :=
   match a, b with
   | KNum x, KNum y => (x <=? y)%Z
   | KNum _, _ => true
@@ -40,6 +53,7 @@ Definition key_leb (a b : key) : bool :=
   | KNull, KNull => true
   | KNull, _ => false
   end.
+Definition key_is_nan (a : key) : bool := match a with KNaN => true | _ => false end.
 Definition key_eqb (a b : key) : bool :=
   match a, b with
   | KNum x, KNum y => (x =? y)%Z
@@ -105,9 +119,12 @@ Section Search.
                            else heap_loop k res t
                end
       end.
-    (* FlatIndex::search (no range query) *)
-    Definition part_search (keff : nat) (mask_empty : bool) (sel : R -> bool) (part : list R) : outcome (list R) :=
-      if mask_empty then heap_loop keff [] part
+    (* FlatIndex::search (no range query).  FlatFloatStorage::dist_calculator -> FlatDistanceCal::<Float32Type>::new
+       does `as_primitive::<Float32Type>()` on the stored vectors and on the query: a panic for a Float16 /
+       Float64 column (`elem_f32 = false`; for Float16 the partition's storage does not even decode). *)
+    Definition part_search (elem_f32 : bool) (keff : nat) (mask_empty : bool) (sel : R -> bool) (part : list R) : outcome (list R) :=
+      if negb elem_f32 then Panic
+      else if mask_empty then heap_loop keff [] part
       else heap_loop keff [] (filter sel part).
   End Heap.
 
@@ -136,8 +153,8 @@ Section Search.
 
     (* ANNIvfSubIndexExec with minimum_nprobes = maximum_nprobes = nprobes, then Scanner::ann's SortExec.
        `deltas`: for every delta index its partitions in probe order (closest centroid first). *)
-    Definition ann (keff nprobes : nat) (mask_empty has_filter : bool) (deltas : list (list (list R))) : outcome (list R) :=
-      match seq_outcome (map (part_search peek pop keff mask_empty (sel has_filter))
+    Definition ann (elem_f32 : bool) (keff nprobes : nat) (mask_empty has_filter : bool) (deltas : list (list (list R))) : outcome (list R) :=
+      match seq_outcome (map (part_search peek pop elem_f32 keff mask_empty (sel has_filter))
                              (concat (map (firstn nprobes) deltas))) with
       | Ok ls => Ok (topk_by da keff (concat ls))
       | Err => Err
@@ -153,14 +170,14 @@ Section Search.
 
     (* Scanner::vector_search.  Result: the rows in output order and whether the reported `_distance` is the
        recomputed one (true: d) or the sub-index's (false: da). *)
-    Definition vector_search (k : nat) (refine : option nat) (nprobes : nat) (mask_empty has_filter fast use_index : bool)
+    Definition vector_search (elem_f32 : bool) (k : nat) (refine : option nat) (nprobes : nat) (mask_empty has_filter fast use_index : bool)
                (deltas : list (list (list R))) (fresh : list R) : outcome (list R * bool) :=
       if use_index then
         match refine with
         | Some O => Err
         | _ =>
             let rf := match refine with Some f => f | None => 1%nat end in
-            match ann (k * rf) nprobes mask_empty has_filter deltas with
+            match ann elem_f32 (k * rf) nprobes mask_empty has_filter deltas with
             | Ok cands =>
                 let refined := match refine with Some _ => true | None => false end in
                 let knn := if refined then flat_knn d k cands else cands in
@@ -177,13 +194,13 @@ Section Search.
         Ok (flat_knn d_live k (filter (fun r => negb has_filter || flt r) fresh), true).
 
     (* Scanner::nearest + vector_search_source: prefilter inside, postfilter after. *)
-    Definition search (k : nat) (refine : option nat) (nprobes : nat) (mask_empty has_filter prefilter fast use_index : bool)
+    Definition search (elem_f32 : bool) (k : nat) (refine : option nat) (nprobes : nat) (mask_empty has_filter prefilter fast use_index : bool)
                (deltas : list (list (list R))) (fresh : list R) : outcome (list R * bool) :=
       match k with
       | O => Err
       | _ =>
-          if prefilter then vector_search k refine nprobes mask_empty has_filter fast use_index deltas fresh
-          else match vector_search k refine nprobes mask_empty false fast use_index deltas fresh with
+          if prefilter then vector_search elem_f32 k refine nprobes mask_empty has_filter fast use_index deltas fresh
+          else match vector_search elem_f32 k refine nprobes mask_empty false fast use_index deltas fresh with
                | Ok (rows, recomputed) => Ok (filter (fun r => negb has_filter || flt r) rows, recomputed)
                | Err => Err
                | Panic => Panic
@@ -220,7 +237,7 @@ Fixpoint find_row (i : N) (l : list crow) : option crow :=
    distinct ids, every pair is a selected row of the partition with its own distance. *)
 Definition chk_part (i : nat * bool * list crow) (o : outcome (list (N * key))) : bool :=
   let '(keff, mask_empty, part) := i in
-  let m := part_search crow c_d (peek_max crow c_d) (pop_max crow c_id c_d) keff mask_empty (sel crow c_del c_flt true) part in
+  let m := part_search crow c_d (peek_max crow c_d) (pop_max crow c_id c_d) true keff mask_empty (sel crow c_del c_flt true) part in
   match m, o with
   | Ok rows, Ok got =>
       key_list_eqb (isort key_leb (map c_d rows)) (isort key_leb (map snd got))
@@ -244,17 +261,17 @@ Definition chk_merge (i : nat * list (list (N * key))) (o : list (N * key)) : bo
   && forallb (fun g => existsb (fun c => (fst c =? fst g) && key_eqb (snd c) (snd g)) cand) o.
 
 (* stream `search`: Scanner::nearest end to end.
-   input ((k, refine, nprobes), (mask_empty, has_filter, prefilter, fast, use_index), deltas (partitions in probe
+   input ((k, refine, nprobes), (mask_empty, has_filter, prefilter, fast, use_index, elem_f32), deltas (partitions in probe
    order), fresh rows (no-index arm: all rows)); output (id, reported distance) in output order.
    Agreement: the reported distances are, in order, the model's; ids are distinct; every returned row is a row
    of the input, not deleted, passes the filter, and carries its own distance. *)
-Definition chk_search (i : (nat * option nat * nat) * (bool * bool * bool * bool * bool) * list (list (list crow)) * list crow)
+Definition chk_search (i : (nat * option nat * nat) * (bool * bool * bool * bool * bool * bool) * list (list (list crow)) * list crow)
            (o : outcome (list (N * key))) : bool :=
   let '(knp, flags, deltas, fresh) := i in
   let '(k, refine, nprobes) := knp in
-  let '(mask_empty, has_filter, prefilter, fast, use_index) := flags in
+  let '(mask_empty, has_filter, prefilter, fast, use_index, elem_f32) := flags in
   let m := search crow c_id c_d c_d c_del c_flt (peek_max crow c_d) (pop_max crow c_id c_d)
-                  k refine nprobes mask_empty has_filter prefilter fast use_index deltas fresh in
+                  elem_f32 k refine nprobes mask_empty has_filter prefilter fast use_index deltas fresh in
   let all := concat (concat deltas) ++ fresh in
   match m, o with
   | Ok (rows, _), Ok got =>
